@@ -23,8 +23,9 @@ use vengine::gen::SplitMix;
 use vengine::{enum_sub, prop_sub, Property, Tier};
 
 fn kernel_strategy(max_n: usize) -> impl Strategy<Value = KCase> {
-    (records(2, max_n, data_class()), kernel_method_any(), any::<u16>(), 1u8..=3, any::<u64>(), 0u8..6).prop_map(
-        |((class, mut x), (method, nonneg), k, rhs_cols, rhs_seed, path)| {
+    (records(2, max_n, data_class()), kernel_method_any(), any::<u16>(), 1u8..=3, any::<u64>(), 0u8..6, gen::placement()).prop_map(
+        |((class, mut x), (method, nonneg), k, rhs_cols, rhs_seed, path, (single, mut offset, scale))| {
+            offset.truncate(x.first().map(|r| r.len()).unwrap_or(0));
             if nonneg {
                 // fractional polynomial degree: reflect the records into the non-negative orthant so that every
                 // base <x_i, x_j> + c (c >= 0) is >= 0 and the power is defined
@@ -34,7 +35,7 @@ fn kernel_strategy(max_n: usize) -> impl Strategy<Value = KCase> {
                     }
                 }
             }
-            KCase { class, x, method, k, rhs_cols, rhs_seed, path }
+            KCase { class, x, method, k, rhs_cols, rhs_seed, path, offset, scale, single }
         },
     )
 }
@@ -104,7 +105,18 @@ fn tiny_kernels() -> Vec<KCase> {
         for method in [KM::Linear, KM::Gaussian(1.0), KM::Gaussian(0.01), KM::Polynomial(1.0, 2.0), KM::Polynomial(0.0, 3.0), KM::Polynomial(0.5, 2.5), KM::Polynomial(0.0, 0.5), KM::Polynomial(-2.0, 3.0)] {
             for path in 0..6u8 {
                 let x: gen::Mat = (0..n).map(|_| vec![1.5, 2.0]).collect();
-                v.push(KCase { class: DataClass::Gaussian, x, method: method.clone(), k: 0, rhs_cols: 1 + path % 3, rhs_seed: 7 + path as u64, path });
+                v.push(KCase {
+                    class: DataClass::Gaussian,
+                    x,
+                    method: method.clone(),
+                    k: 0,
+                    rhs_cols: 1 + path % 3,
+                    rhs_seed: 7 + path as u64,
+                    path,
+                    offset: if path % 2 == 0 { vec![] } else { vec![1000.0, 0.0] },
+                    scale: 1.0,
+                    single: path >= 3,
+                });
             }
         }
     }
@@ -167,7 +179,7 @@ pub fn property() -> Property {
         subs: vec![
             prop_sub("kernel", 50000, 250000, |t: Tier| kernel_strategy(t.pick(24, 60)), check_kernel)
                 .chunks(16)
-            .require(&["knn_relation_asymmetric", "knn_tie_at_rank_k", "poly_fractional_degree", "poly_zero_base", "poly_negative_base", "poly_negative_constant"]),
+            .require(&["knn_relation_asymmetric", "knn_tie_at_rank_k", "offset_1e8", "offset_1e6", "offset_1e3", "element_f32", "poly_fractional_degree", "poly_zero_base", "poly_negative_base", "poly_negative_constant"]),
             prop_sub(
                 "threshold",
                 100000,
